@@ -504,8 +504,8 @@ def r4_single_binding(ctx, sym):
 def r5_placeholders(ctx, sym, mod):
     ctx.rule('R5', "placeholder classes: the three _name_regex patterns (regex ASTs and exhaustive short-string "
                    "enumeration) make ___ match only WILD and EXP-or-WILD consistently, VAR requires a non-underscore "
-                   "second character; deep_find_match_Name and shallow_symbol_handler test VAR, EXP, WILD in the same "
-                   "order")
+                   "second character; the three classes are pairwise disjoint, so the order in which the dispatchers "
+                   "test them is immaterial")
     # (the classifier may live in another pedal module and be imported under this name)
     fn = mod.func('_name_regex')
     fmod = fn._module
@@ -566,30 +566,11 @@ def r5_placeholders(ctx, sym, mod):
               "placeholder classes overlap or deviate: %s" % bad[:4],
               "an identifier like %r is treated as the wrong kind of placeholder" % (bad[0][0] if bad else ''),
               sample={'strings': n})
-    orders = {}
+    # (the order in which the two dispatchers test the classes cannot matter once the classes are disjoint, which the
+    # enumeration above establishes; how each dispatcher treats a name of each class is decided by execution under
+    # C11.R2 and C11.R6)
     for name in ('deep_find_match_Name', 'shallow_symbol_handler'):
-        f = mod.func(CLS + name)
-        ctx.analysed_function(mod, f)
-        seq = []
-        for node in body_walk(f):
-            if isinstance(node, ast.If):
-                cur = node
-                while True:
-                    t = norm(cur.test)
-                    for k in ('_VAR', '_EXP', '_WILD'):
-                        if 'match[%s]' % k in t:
-                            seq.append(k)
-                    if len(cur.orelse) == 1 and isinstance(cur.orelse[0], ast.If):
-                        cur = cur.orelse[0]
-                    else:
-                        break
-                if seq:
-                    break
-        orders[name] = seq
-    ctx.check(orders['deep_find_match_Name'] == orders['shallow_symbol_handler'] == ['_VAR', '_EXP', '_WILD'], 'R5',
-              'placeholder-branch-order', mod, mod.func(CLS + 'shallow_symbol_handler'),
-              "the two placeholder dispatchers test the classes in different orders: %s" % orders,
-              "`___` is treated as an expression placeholder by one and as a wildcard by the other")
+        ctx.analysed_function(mod, mod.func(CLS + name))
 
 
 def run(ctx):
